@@ -19,6 +19,11 @@ class Unsupported(Exception):
     pass
 
 
+class AssertsFalse(Exception):
+    """the library rejects this instantiation with an unconditional assert(false)"""
+    pass
+
+
 class Ptr(object):
     __slots__ = ('base', 'off', 'var')
 
@@ -277,6 +282,8 @@ class Eval(object):
                 raise NotStraightLine('loop at block %s' % cur['name'])
             visited.add(cur['id'])
             nxt = None
+            if self.is_assert_block(cur):
+                raise AssertsFalse('unconditional assertion failure (instantiation not supported by the library)')
             for inst in cur['insts']:
                 op = inst['op']
                 if op == 'phi':
@@ -660,6 +667,32 @@ class Eval(object):
                     raise Unsupported('masked load with symbolic mask')
                 out.append(self.load(Ptr(p.base, p.off + i * ew // 8, p.var), ew // 8, {'align': 1}))
             E[iid] = T.cat(*out)
+        elif self.const_permute(inst, name, ops, ty):
+            pass
+        elif re.match(r'^llvm\.x86\.avx512\.mask\.(compress|expand)\.', name):
+            src, pas, mk = self.val(ops[0]), self.val(ops[1]), self.val(ops[2])
+            if not T.is_const(mk):
+                self.opaque(inst, ty, ops, name)
+                return
+            ew = ty.elem.bits
+            n = ty.n
+            m = T.const_val(mk)
+            sel_ = [i for i in range(n) if (m >> i) & 1]
+            out = []
+            if '.compress.' in name:
+                # VPCOMPRESS: selected source lanes packed contiguously from lane 0, remaining lanes from passthru
+                for k in range(n):
+                    out.append(T.slice_(src, sel_[k] * ew, ew) if k < len(sel_) else T.slice_(pas, k * ew, ew))
+            else:
+                # VPEXPAND: consecutive source lanes written to the selected positions, others from passthru
+                j = 0
+                for i in range(n):
+                    if (m >> i) & 1:
+                        out.append(T.slice_(src, j * ew, ew))
+                        j += 1
+                    else:
+                        out.append(T.slice_(pas, i * ew, ew))
+            E[iid] = T.cat(*out)
         elif base in ('llvm.ctpop', 'llvm.bitreverse'):
             E[iid] = lanewise(lambda x: T.raw_op(base[5:], T.width(x), x), ops[0])
         elif base in ('llvm.ctlz', 'llvm.cttz'):
@@ -747,6 +780,75 @@ class Eval(object):
             self.opaque(inst, ty, ops, name)
         else:
             self.opaque(inst, ty, ops, name)
+
+    def const_permute(self, inst, name, ops, ty):
+        """x86 permutes whose index operand is a compile-time constant: pure re-slicing (Intel SDM operation
+        sections of PSHUFB, VPERMILPS/PD, VPERMD/PS, VPERMB/W/D/Q, VPERMI2*).  Returns False if not applicable."""
+        E = self.env
+        iid = inst['id']
+        m = re.match(r'^llvm\.x86\.(ssse3\.pshuf\.b\.128|avx2\.pshuf\.b|avx512\.pshuf\.b\.512)$', name)
+        if m:
+            a, idx = self.val(ops[0]), self.val(ops[1])
+            if not T.is_const(idx):
+                return False
+            iv = T.const_val(idx)
+            n = T.width(a) // 8
+            out = []
+            for i in range(n):
+                c = (iv >> (8 * i)) & 0xff
+                base_ = (i // 16) * 16
+                out.append(T.const(8, 0) if c & 0x80 else T.slice_(a, (base_ + (c & 15)) * 8, 8))
+            E[iid] = T.cat(*out)
+            return True
+        m = re.match(r'^llvm\.x86\.(avx|avx512)\.vpermilvar\.(ps|pd)(\.256|\.512)?$', name)
+        if m:
+            a, idx = self.val(ops[0]), self.val(ops[1])
+            if not T.is_const(idx):
+                return False
+            iv = T.const_val(idx)
+            ew = 32 if m.group(2) == 'ps' else 64
+            n = T.width(a) // ew
+            per = 128 // ew
+            out = []
+            for i in range(n):
+                c = (iv >> (ew * i)) & ((1 << ew) - 1)
+                k = (c & 3) if ew == 32 else ((c >> 1) & 1)
+                out.append(T.slice_(a, ((i // per) * per + k) * ew, ew))
+            E[iid] = T.cat(*out)
+            return True
+        m = re.match(r'^llvm\.x86\.avx2\.perm(d|ps)$', name)
+        if m:
+            a, idx = self.val(ops[0]), self.val(ops[1])
+            if not T.is_const(idx):
+                return False
+            iv = T.const_val(idx)
+            E[iid] = T.cat(*[T.slice_(a, (((iv >> (32 * i)) & 7)) * 32, 32) for i in range(8)])
+            return True
+        m = re.match(r'^llvm\.x86\.avx512\.permvar\.(qi|hi|si|di|sf|df)\.(128|256|512)$', name)
+        if m:
+            a, idx = self.val(ops[0]), self.val(ops[1])
+            if not T.is_const(idx):
+                return False
+            iv = T.const_val(idx)
+            ew = {'qi': 8, 'hi': 16, 'si': 32, 'di': 64, 'sf': 32, 'df': 64}[m.group(1)]
+            n = T.width(a) // ew
+            E[iid] = T.cat(*[T.slice_(a, (((iv >> (ew * i)) & (n - 1))) * ew, ew) for i in range(n)])
+            return True
+        m = re.match(r'^llvm\.x86\.avx512\.vpermi2var\.(qi|hi|d|q|ps|pd)\.(128|256|512)$', name)
+        if m:
+            a, idx, b = self.val(ops[0]), self.val(ops[1]), self.val(ops[2])
+            if not T.is_const(idx):
+                return False
+            iv = T.const_val(idx)
+            ew = {'qi': 8, 'hi': 16, 'd': 32, 'q': 64, 'ps': 32, 'pd': 64}[m.group(1)]
+            n = T.width(a) // ew
+            out = []
+            for i in range(n):
+                c = (iv >> (ew * i)) & (2 * n - 1)
+                out.append(T.slice_(b if c & n else a, (c & (n - 1)) * ew, ew))
+            E[iid] = T.cat(*out)
+            return True
+        return False
 
     def opaque(self, inst, ty, ops, name):
         vals = []
